@@ -69,6 +69,50 @@ def _str_arg_bound(p, f, call, arg):
     return None, "unknown string"
 
 
+def _local_string_terminated(f, call, arg):
+    """for a %s argument that is a local char array: (True, how) when a NUL is known to be inside the array when the call reads it, (False, why) when not,
+    (None, None) when the argument is not a local array"""
+    a = strip_casts(f, arg)
+    pa = resolve_addr(f, a)
+    if pa.root[0] != "alloca":
+        return None, None
+    al = f.insts[pa.root[1]]
+    n = _array_len(al.d.get("alloc_ty"))
+    if n is None:
+        return None, None
+    copies = [i for i in f.calls() if i.callee in ("strncpy", "memcpy", "llvm.memcpy.p0i8.p0i8.i64") and i.args and resolve_addr(f, i.args[0]).root == pa.root
+              and f.inst_dominates(i, call)]
+    fills = [i for i in f.calls() if (i.callee or "").startswith("llvm.memset") and resolve_addr(f, i.args[0]).root == pa.root and const_int(i.args[1]) == 0
+             and const_int(i.args[2]) is not None and const_int(i.args[2]) >= n and f.inst_dominates(i, call)]
+    nuls = []
+    for i in f.all_insts():
+        if i.op == "store" and const_int(i.ops[0]) == 0 and f.inst_dominates(i, call):
+            q = resolve_addr(f, i.ops[1])
+            if q.root == pa.root:
+                idx = [const_int(s_[1]) for s_ in q.steps if s_[0] in ("idx", "ptr")]
+                j = idx[-1] if idx else 0
+                if j is not None and 0 <= j <= n - 1:
+                    nuls.append((i, j))
+    if not copies:
+        return None, None
+    for c in copies:
+        k = const_int(c.args[2])
+        if k is None or k > n:
+            return False, "the copy into the local array is not bounded by its size"
+        ok = False
+        for (st, j) in nuls:
+            # the terminator is written after the copy, or at a place the copy does not reach
+            if f.inst_dominates(c, st) or j >= k:
+                ok = True
+        if not ok and fills and k <= n - 1 and all(f.inst_dominates(z, c) for z in fills):
+            ok = True
+        if not ok and c.callee != "strncpy":
+            ok = None
+        if ok is False:
+            return False, "strncpy of up to %d bytes into the local char[%d] and no terminating NUL stored behind it before the use: a source of %d characters or more leaves the array unterminated" % (k, n, k)
+    return True, "bounded copy + NUL"
+
+
 def fmt_expansion(p, f, call, fmt, args):
     """(max length or None, reason)"""
     total = 0
@@ -146,6 +190,20 @@ def rule_R4a(ctx, rep, config="c-lib"):
             else:
                 rep.violation("R4a", key, "non-literal format string written with an unbounded vsprintf", where=i.where())
             continue
+        # a %s argument that is a local array is a string: terminated inside the array
+        unterminated = None
+        k_ = 0
+        for m_ in FMT_RE.finditer(fmt):
+            if m_.group(5) == "%":
+                continue
+            if k_ < len(i.args) - 2 and m_.group(5) == "s":
+                t_, how = _local_string_terminated(f, i, i.args[2 + k_])
+                if t_ is False:
+                    unterminated = how
+            k_ += 1
+        if unterminated:
+            rep.violation("R4a", key + "/terminated", "the %%s argument of the message `%s' is a local buffer that need not hold a NUL: %s -- the formatting reads behind "
+                          "the array (stack contents in the error message, or a fault)" % (fmt, unterminated), where=i.where(), witness=[i.where()])
         n, why = fmt_expansion(p, f, i, fmt, i.args[2:])
         if bounded_sink or (n is not None and n < bufsize):
             rep.ok("R4a", key, nontrivial=True, sample={"site": i.where(), "format": fmt, "max_expansion": n if n is not None else "unbounded (" + why + ")",
